@@ -683,27 +683,45 @@ func ruleV5(c *an.Ctx) {
 	}
 	// (b) inside the loop: fileArgs is updated unconditionally, filePostNodes only for a real consumer
 	nArgs, nPost := 0, 0
+	realConsumer := func(r an.Rel) bool { return r.Op == token.NEQ && an.IsNil(r.Y) && isNodePtr(r.X) }
+	// the bookkeeping may be written by attachToFileParents itself or by a Fork method it calls per fork
+	type vhost struct {
+		fn          *ssa.Function
+		callGuarded bool // every call of the helper sits behind "consumer != nil"
+	}
+	vhosts := []vhost{{attach, false}}
 	an.Instrs(attach, func(in ssa.Instruction) {
-		mu, ok := in.(*ssa.MapUpdate)
-		if !ok {
-			return
-		}
-		ts := mu.Map.Type().String()
-		switch {
-		case strings.HasPrefix(ts, "map[string]map["): // fileArgs level: pArgs[arg] = {...}
-			nArgs++
-		case strings.Contains(ts, "]struct{}"): // nodes[setNode] = struct{}{}
-			nArgs++
-			g, _ := an.GuardedBy(in, func(r an.Rel) bool { return r.Op == token.NEQ && an.IsNil(r.Y) && isNodePtr(r.X) })
-			c.Check("V5", "fileArgs-updated-also-for-nil-consumer@(*Node).attachToFileParents", in.Pos(), !g,
-				"the argument's consumer set must be updated even when the consumer is the top-level (nil): that entry keeps final outputs alive")
-		case strings.Contains(ts, "]map[string]"): // filePostNodes
-			nPost++
-			g, w := an.GuardedBy(in, func(r an.Rel) bool { return r.Op == token.NEQ && an.IsNil(r.Y) && isNodePtr(r.X) })
-			c.Check("V5", "filePostNodes-only-for-real-consumers@(*Node).attachToFileParents", in.Pos(), g,
-				"the top-level pipeline must not be added as a file post-node (it never completes before VDR); "+c.WitnessString(w))
+		if cl := an.AsCallAny(in); cl != nil {
+			if g := cl.Common().StaticCallee(); g != nil && g.Blocks != nil && g.Pkg == attach.Pkg && g.Signature.Recv() != nil && strings.Contains(g.Signature.Recv().Type().String(), "core.Fork") {
+				guarded, _ := an.GuardedBy(in, realConsumer)
+				vhosts = append(vhosts, vhost{g, guarded})
+			}
 		}
 	})
+	for _, vh := range vhosts {
+		vh := vh
+		an.Instrs(vh.fn, func(in ssa.Instruction) {
+			mu, ok := in.(*ssa.MapUpdate)
+			if !ok {
+				return
+			}
+			ts := mu.Map.Type().String()
+			switch {
+			case strings.HasPrefix(ts, "map[string]map["): // fileArgs level: pArgs[arg] = {...}
+				nArgs++
+			case strings.Contains(ts, "]struct{}"): // nodes[setNode] = struct{}{}
+				nArgs++
+				g, _ := an.GuardedBy(in, realConsumer)
+				c.Check("V5", "fileArgs-updated-also-for-nil-consumer@(*Node).attachToFileParents", in.Pos(), !g && !vh.callGuarded,
+					"the argument's consumer set must be updated even when the consumer is the top-level (nil): that entry keeps final outputs alive")
+			case strings.Contains(ts, "]map[string]"): // filePostNodes
+				nPost++
+				g, w := an.GuardedBy(in, realConsumer)
+				c.Check("V5", "filePostNodes-only-for-real-consumers@(*Node).attachToFileParents", in.Pos(), g || vh.callGuarded,
+					"the top-level pipeline must not be added as a file post-node (it never completes before VDR); "+c.WitnessString(w))
+			}
+		})
+	}
 	c.Floor("V5", "fileArgs updates in attachToFileParents", nArgs, 1)
 	c.Floor("V5", "filePostNodes updates in attachToFileParents", nPost, 1)
 	// (c) retains insert the nil consumer - for every fork, on every path, whether or not the argument already
@@ -860,7 +878,42 @@ func copiesNestedMap(fn *ssa.Function, f *types.Var) (bool, string) {
 		}
 	})
 	if inner == nil {
-		return false, "the nested maps are not copied (no range over the entry's inner map)"
+		// maps.Clone(entry) per outer entry is the same deep copy (nil stays nil): every iteration must
+		// pass the clone, and its result must be what is stored under the outer key
+		var clone *ssa.Call
+		an.Instrs(fn, func(in ssa.Instruction) {
+			cl, ok := in.(*ssa.Call)
+			if !ok || len(cl.Call.Args) != 1 || !t.Has(cl.Call.Args[0]) {
+				return
+			}
+			g := cl.Call.StaticCallee()
+			if g != nil && g.Origin() != nil {
+				g = g.Origin()
+			}
+			if g != nil && g.Pkg != nil && g.Pkg.Pkg.Path() == "maps" && g.Name() == "Clone" {
+				clone = cl
+			}
+		})
+		if clone == nil {
+			return false, "the nested maps are not copied (no range over the entry's inner map)"
+		}
+		wc := an.Query{Fn: fn, After: onext, Target: func(in ssa.Instruction) bool { return in == ssa.Instruction(onext) },
+			Barrier: func(in ssa.Instruction) bool {
+				mu, ok := in.(*ssa.MapUpdate)
+				return ok && an.Strip(mu.Value) == ssa.Value(clone) && t.Has(mu.Key) && an.LoadsField(mu.Map, f) && an.RootOf(mu.Map) != src
+			},
+			BarrierEdge: func(from, to *ssa.BasicBlock) bool {
+				cnd, tr, ok := an.EdgeCond(from, to)
+				if !ok {
+					return false
+				}
+				ex, isEx := cnd.(*ssa.Extract)
+				return isEx && ex.Tuple == ssa.Value(onext) && ex.Index == 0 && !tr
+			}}.Find()
+		if wc != nil {
+			return false, "an entry can be skipped without storing a clone of its inner map into the new fork"
+		}
+		return true, "outer entries are copied with a clone of each nested map"
 	}
 	exitEdge := func(nx *ssa.Next) func(from, to *ssa.BasicBlock) bool {
 		return func(from, to *ssa.BasicBlock) bool {
@@ -968,6 +1021,23 @@ func ruleV6(c *an.Ctx) {
 				if why, ok := exceptions[owner]; ok {
 					c.Pass("V6", key, r.Instr.Pos(), "tabled exception: "+why)
 					continue
+				}
+				// an unexported helper reached only from tabled functions shares their phase
+				var allowed []string
+				for n := range exceptions {
+					allowed = append(allowed, n)
+				}
+				if cs := effectiveCallers(p, an.Outermost(r.Fn), allowed); len(cs) > 0 {
+					all := true
+					for _, n := range cs {
+						if _, ok := exceptions[n]; !ok {
+							all = false
+						}
+					}
+					if all && an.Outermost(r.Fn).Object() != nil && !an.Outermost(r.Fn).Object().Exported() {
+						c.Pass("V6", key, r.Instr.Pos(), "helper reached only from "+strings.Join(cs, ", ")+": "+exceptions[cs[0]])
+						continue
+					}
 				}
 			}
 			c.Check("V6", key, r.Instr.Pos(), r.OK, r.Reason)
